@@ -263,6 +263,55 @@ def plan(framework, cfg):
             x = ivec(r, N)
             obs.append({"kind": "OGrad", "xs": dims, "x": x, "y": [0] * M, "joint": "hess", "part": 0, "zero_y": True})
             obs.append({"kind": "OFwd2", "xs": dims, "x": x, "joint": "hess", "part": 1})
+    obs.extend(plan_sequences(framework, cfg))
+    return obs
+
+
+def unitv(n, j):
+    e = [0] * n
+    e[j] = 1
+    return e
+
+
+def plan_sequences(framework, cfg):
+    """Multi-step observations: SEVERAL reverse passes through ONE retained forward
+    (torch.autograd.grad(..., retain_graph=True), torch.autograd.functional.jacobian, two
+    losses sharing one forward, a jax pullback called repeatedly, one compiled pytensor
+    function called repeatedly with earlier results re-read at the end).  Every part is an
+    ordinary observation (OVjp / OGrad / OBVjp / OBGrad / OFwd) carrying the whole sequence."""
+    r = common.rng(PID, "seq", framework, cfg["idx"])
+    N, M, dims, dimsd = cfg["N"], cfg["M"], cfg["dims"], cfg["dimsd"]
+    obs = []
+
+    def seq(name, kind, xs, x, items, key, **extra):
+        sid = "%s/%d" % (name, len(obs))
+        for k, it in enumerate(items):
+            o = {"kind": kind, "xs": xs, "x": x, key: it, "seq": name, "sid": sid, "part": k, "seq_inputs": items}
+            o.update(extra)
+            obs.append(o)
+
+    rows = [unitv(M, i) for i in range(min(M, 6))]
+    if framework == "torch":
+        seq("retain", "OVjp", [N], ivec(r, N), [ivec(r, M) for _ in range(3)] + rows, "g")
+        seq("funcjac", "OVjp", [N], ivec(r, N), rows, "g")
+        seq("twoloss", "OGrad", [N], ivec(r, N), [ivec(r, M), ivec(r, M)], "y")
+        if len(dims) > 1 or len(dimsd) > 1:
+            seq("retain", "OVjp", dims, ivec(r, N), [ivec(r, M) for _ in range(3)], "g", nd=True)
+        for fl in ((True, False) if cfg["idx"] % 3 == 0 else ((cfg["idx"] % 2 == 0),)):
+            B = r.randint(2, 3)
+            xs = [B, N] if fl else [B] + dims
+            seq("retain", "OBVjp", xs, ivec(r, B * N), [ivec(r, B * M) for _ in range(3)], "g", flatten=fl)
+            seq("twoloss", "OBGrad", xs, ivec(r, B * N), [ivec(r, B * M), ivec(r, B * M)], "y", flatten=fl)
+    elif framework == "jax":
+        seq("pullback", "OVjp", [N], ivec(r, N), [ivec(r, M) for _ in range(3)] + rows[:3], "g")
+    else:
+        items = [[ivec(r, N), ivec(r, M)] for _ in range(3)]
+        sid = "repeat/%d" % len(obs)
+        for k, (xk, gk) in enumerate(items):
+            obs.append({"kind": "OVjp", "xs": dims, "x": xk, "g": gk, "seq": "repeat", "sid": sid, "part": k, "seq_inputs": items})
+        sid = "repeatfwd/%d" % len(obs)
+        for k, (xk, gk) in enumerate(items):
+            obs.append({"kind": "OFwd", "xs": dims, "x": xk, "seq": "repeatfwd", "sid": sid, "part": k, "seq_inputs": items})
     return obs
 
 
@@ -293,9 +342,78 @@ def observe(ctx, ob):
         return ("raised", type(e).__name__, str(e)[:200])
 
 
+def run_sequence(ctx, ob):
+    """All parts of a multi-step observation, in order; a part is (shape, data) or the
+    exception raised at that step."""
+    fw, cfg, kind, name, items = ctx.fw, ctx.cfg, ob["kind"], ob["seq"], ob["seq_inputs"]
+    dt = ctx.dtype
+    out = []
+
+    def step(fn):
+        try:
+            out.append(fn())
+        except Exception as e:  # noqa: BLE001
+            out.append(e)
+
+    if fw == "torch":
+        import torch
+        from pylops import TorchOperator
+        batch = kind.startswith("OB")
+        flatten = ob["flatten"] if batch else not ob.get("nd", False)
+        Top = TorchOperator(ctx.op(), batch=batch, flatten=flatten)
+        xt = torch.from_numpy(np.asarray(ob["x"], dtype=dt).reshape(ob["xs"]).copy()).requires_grad_(True)
+        if name == "funcjac":
+            try:
+                Jm = torch.autograd.functional.jacobian(Top.apply, xt).detach().numpy()
+                Jm = Jm.reshape(-1, *ob["xs"])
+                for it in items:
+                    out.append(_out(Jm[it.index(1)]))
+            except Exception as e:  # noqa: BLE001
+                out = [e for _ in items]
+            return out
+        yt = Top.apply(xt)
+        if name == "retain":
+            for it in items:
+                v = torch.from_numpy(np.asarray(it, dtype=dt).reshape(tuple(yt.shape)).copy())
+                step(lambda: _out(torch.autograd.grad(yt, xt, v, retain_graph=True)[0].numpy()))
+        else:       # two losses sharing one forward
+            ls = [0.5 * torch.sum((yt - torch.from_numpy(np.asarray(it, dtype=dt).reshape(tuple(yt.shape)).copy())) ** 2) for it in items]
+            for k, l in enumerate(ls):
+                step(lambda: _out(torch.autograd.grad(l, xt, retain_graph=(k + 1 < len(ls)))[0].numpy()))
+        return out
+    if fw == "jax":
+        import jax
+        import jax.numpy as jnp
+        from pylops import JaxOperator
+        if "J" not in ctx.cache:
+            ctx.cache["J"] = JaxOperator(ctx.op())
+        _, pull = jax.vjp(ctx.cache["J"]._matvec, jnp.asarray(np.asarray(ob["x"], dtype=dt)))
+        for it in items:
+            step(lambda: _out(pull(jnp.asarray(np.asarray(it, dtype=dt)))[0]))
+        return out
+    _observe(ctx, {"kind": "OFwd", "xs": cfg["dims"], "x": [0] * cfg["N"]})       # make sure the compiled functions exist
+    fns = ctx.cache["P"]
+    held = []
+    for xk, gk in items:         # ONE compiled function, several calls; results are read only after the last call
+        xa = np.asarray(xk, dtype="float64").reshape(cfg["dims"])
+        try:
+            held.append(fns["OVjp"](xa, np.asarray(gk, dtype="float64").reshape(cfg["dimsd"])) if name == "repeat" else fns["OFwd"](xa))
+        except Exception as e:  # noqa: BLE001
+            held.append(e)
+    return [h if isinstance(h, Exception) else _out(h) for h in held]
+
+
 def _observe(ctx, ob):
     fw, cfg, kind = ctx.fw, ctx.cfg, ob["kind"]
     dt = ctx.dtype
+    if ob.get("seq"):
+        key = ("seq", ob["sid"], json.dumps(ob["x"]))
+        if key not in ctx.cache:
+            ctx.cache[key] = run_sequence(ctx, ob)
+        res = ctx.cache[key][ob["part"]]
+        if isinstance(res, Exception):
+            raise res
+        return res
     x = np.asarray(ob["x"], dtype=dt).reshape(ob["xs"])
     if fw == "torch":
         import torch
@@ -410,6 +528,8 @@ def shrink(framework, cfg, ob, tol):
     one and unit-vector inputs where they still fail."""
     ctx = Ctx(framework, cfg)
     best = ob
+    if ob.get("seq"):
+        return ob            # a multi-step history is replayed as a whole
     N, M = cfg["N"], cfg["M"]
     cands = []
     batched = ob["kind"].startswith("OB")
@@ -615,6 +735,7 @@ def main(tier):
                 model_ok += 1
             label = "%s %s(%s) dtype=%s %s%s" % (fw, cfg["family"], json.dumps(cfg["params"]), cfg["dtype"], ob["kind"],
                                                  ("" if "flatten" not in ob else " flatten=%s" % ob["flatten"]) +
+                                                 ("" if "seq" not in ob else " [sequence %s, step %d of %d]" % (ob["seq"], ob["part"], len(ob["seq_inputs"]))) +
                                                  ("" if "joint" not in ob else " [one graph: %s, output %d]" % (ob["joint"], ob["part"])))
             if s_bad:
                 fid = known_match(fw, cfg, ob)
@@ -658,7 +779,10 @@ def main(tier):
         theorems=thms, axioms_reported=axioms, evaluations=evals, distinct_nontrivial=len(nontriv),
         rule="per (framework, operator configuration): forward value, cotangent pull-back and gradient of 0.5||Op x-y||^2 on random "
              "integer vectors in [-4,4] (flat; dims-shaped; torch batch=True with flatten True/False, batch size 1-3; jax vjp, grad, "
-             "rmatvecad; pytensor grad / known_grads); non-trivial = distinct (framework, configuration, observation kind, input) whose "
+             "rmatvecad; pytensor grad / known_grads; pytensor graphs applying forward and adjoint / two wrappers to one variable); multi-step "
+             "histories: >=3 random + unit cotangents through ONE retained torch graph (batch False/True), torch.autograd.functional.jacobian "
+             "rows, two losses sharing one forward, a jax pullback called repeatedly, one compiled pytensor function called 3 times with "
+             "earlier results re-read after the last call; non-trivial = distinct (framework, configuration, observation kind, input) whose "
              "specified output is not identically zero",
         configurations=len(cfgs), cases=len(cases), known_finding_observations=n_known_obs, per_framework=fwcount, per_kind=kinds, dims_vs_dimsd_rank=ranks,
         families=sorted({c["family"] for c in cfgs}), dtypes=sorted({c["dtype"] for c in cfgs}),
